@@ -24,13 +24,13 @@ package c20
 
 import (
 	"bytes"
-	"strconv"
 	"encoding/xml"
 	"fmt"
 	"io"
 	"os"
 	"regexp"
 	"sort"
+	"strconv"
 	"strings"
 	"sync"
 	"time"
@@ -1060,8 +1060,11 @@ func Run(c *ev.Ctx) int {
 	}
 	wedgeDone := make(chan struct{})
 	go func() { defer close(wedgeDone); wedgeLane(c); policyCostLane(c) }()
+	recvDone := make(chan struct{})
+	go func() { defer close(recvDone); receiverLane(c) }()
 	mainLane(c, x, cases, nWorkers, dead)
 	<-wedgeDone
+	<-recvDone
 	if c.Thorough() && (c.Only == "" || c.Only == "race") {
 		rng := c.Rng("race")
 		var sample []*fcase
